@@ -103,7 +103,7 @@ func TestVerifC17(t *testing.T) {
 		Stub:     []string{"TCP connections with fault plans (simnet; errors shaped like the net package's, whose text embeds both endpoints)", "covert echo host, liveness table, detector recorder", "stdout/stderr/std logger are redirected to a capture file in TestMain before any logger exists"},
 		Rule: "enumerated: outcome class {no registration, no transport, found via min / prefix / obfs4, transport error, connecting transport whose Connect fails with one of 7 DTLS-shaped errors, connecting transport relayed} x client family {IPv4, IPv6, v4-mapped} x PROXY-header flag of the registration (relayed outcomes) x fault site (19 operation sites on the client connection, the dial and the covert connection) x every error shape of that operation kind (read 13, write 12, close 4, deadline 3, dial 8), plus the fault-free runs: all single faults; random: pairs of faults, registration-path events (forbidden covert, live phantom, duplicates, sweep). " +
 			"non-trivial = the planned fault fired (or fault-free found/relay run); distinct = (outcome, family, fault plan, schedule)",
-		Assume: []string{"LOG_CLIENT_IP unset, default log level", "searched forms: dotted IPv4, RFC 5952 and fully expanded IPv6, with or without brackets/port"},
+		Assume: []string{"LOG_CLIENT_IP unset or set to a false value (false, 0); default log level", "searched forms: dotted IPv4, RFC 5952 and fully expanded IPv6, with or without brackets/port"},
 	})
 }
 
@@ -168,6 +168,16 @@ func c17Scenario(r *sim.Run) {
 
 	// the operator's GeoIP databases: none / complete / unknown country / lookups fail / IPv4-only
 	o.geo = tp.Choose("geoip", 5)
+	// client-address logging is disabled: the variable is unset (the default) or spelled out as
+	// a false value, as the shipped sysconfig/conjure.conf does (LOG_CLIENT_IP=false)
+	switch v := tp.Choose("log-client-ip-env", 4); v {
+	case 0, 1:
+		os.Unsetenv("LOG_CLIENT_IP")
+	default:
+		os.Setenv("LOG_CLIENT_IP", []string{"false", "0"}[v-2])
+		r.Probe("LOG_CLIENT_IP_set_to_a_false_value")
+	}
+	defer os.Unsetenv("LOG_CLIENT_IP")
 	w := newStWorld(r, s, tp, o)
 	if w == nil {
 		return
